@@ -476,12 +476,12 @@ Qed.
 
 (* ------------------------------------------------------------------ internal/sort: maxDepth *)
 
-Lemma maxDepth_loop_eq (fuel : nat) : forall (n : Z) (i depth : nat),
+Lemma maxDepth_loop_eq (fuel : nat) : forall (i depth : nat),
   Z.of_nat depth + Z.of_nat i < 4611686018427387904 ->
-  gf_sort_maxDepth_loop1 fuel n (Z.of_nat depth) (Z.of_nat i)
-  = o2o (fun d : nat => Z.of_nat (d * Sort.k_md_mul)) (Sort.max_depth_loop fuel i depth).
+  gf_sort_maxDepth_loop1 fuel (Z.of_nat depth) (Z.of_nat i) = o2o Z.of_nat (Sort.max_depth_loop fuel i depth)
+  /\ (forall d, Sort.max_depth_loop fuel i depth = Ok d -> Z.of_nat d <= Z.of_nat depth + Z.of_nat i).
 Proof.
-  induction fuel as [|f IH]; intros n i depth Hb; [reflexivity|].
+  induction fuel as [|f IH]; intros i depth Hb; [split; [reflexivity|discriminate]|].
   cbn [gf_sort_maxDepth_loop1 Sort.max_depth_loop].
   change Sort.k_md_zero with 0%nat; change Sort.k_md_shift with 1%nat.
   rewrite Z.gtb_ltb. destruct (Z.ltb_spec 0 (Z.of_nat i)) as [Hi|Hi]; destruct (Nat.ltb_spec 0 i) as [Hi'|Hi']; try lia.
@@ -490,17 +490,22 @@ Proof.
     replace (Z.shiftr (Z.of_nat i) 1) with (Z.of_nat (i / 2 ^ 1)).
     2:{ rewrite Z.shiftr_div_pow2 by lia. change (2 ^ 1)%nat with 2%nat. change (2 ^ 1) with 2.
         rewrite Nat2Z.inj_div. reflexivity. }
-    apply IH. change (2 ^ 1)%nat with 2%nat. rewrite Nat2Z.inj_div. change (Z.of_nat 2) with 2.
-    assert (Z.of_nat i / 2 < Z.of_nat i) by (apply Z.div_lt; lia). lia.
-  - cbn [o2o]. change Sort.k_md_mul with 2%nat. rewrite gs64_small by lia. f_equal. lia.
+    assert (Hd : Z.of_nat (i / 2 ^ 1) < Z.of_nat i).
+    { change (2 ^ 1)%nat with 2%nat. rewrite Nat2Z.inj_div. change (Z.of_nat 2) with 2. apply Z.div_lt; lia. }
+    destruct (IH (i / 2 ^ 1)%nat (S depth)) as [E B]; [lia|]. split; [exact E|].
+    intros d Hd'. specialize (B d Hd'). lia.
+  - split; [reflexivity|]. intros d Hd. injection Hd as <-. lia.
 Qed.
 
 Lemma gf_sort_maxDepth_eq (n : nat) : Z.of_nat n < 4611686018427387904 ->
   gf_sort_maxDepth (Z.of_nat n) = o2o Z.of_nat (Sort.max_depth n).
 Proof.
   intros Hn. unfold gf_sort_maxDepth, Sort.max_depth. cbv zeta. rewrite Nat2Z.id.
-  change 0 with (Z.of_nat 0) at 1. rewrite maxDepth_loop_eq by lia.
-  destruct (Sort.max_depth_loop (S n) n 0) as [d| |]; reflexivity.
+  change 0 with (Z.of_nat 0) at 1.
+  destruct (maxDepth_loop_eq (S n) n 0) as [E B]; [lia|]. rewrite E.
+  destruct (Sort.max_depth_loop (S n) n 0) as [d| |]; cbn [o2o gbind obind]; try reflexivity.
+  specialize (B d eq_refl). change Sort.k_md_mul with 2%nat.
+  rewrite gs64_small by lia. f_equal. lia.
 Qed.
 
 (* ------------------------------------------------------------------ function/int.go, function/bool.go
@@ -566,3 +571,84 @@ Proof. reflexivity. Qed.
 
 Lemma assert_no_fail b : Ryu.assert_ b <> Fail.
 Proof. destruct b; discriminate. Qed.
+
+(* ------------------------------------------------------------------ internal/ryu: float64ToDecimalExactInt *)
+
+Lemma sub64_eq (a b : N) : (b <= a + Ryu.two64N)%N ->
+  Z.of_N (Ryu.sub64 a b) = gu64 (Z.of_N a - Z.of_N b).
+Proof.
+  intros H. unfold Ryu.sub64. rewrite u64_eq, N2Z.inj_sub, N2Z.inj_add by exact H.
+  unfold gu64. change (Z.of_N Ryu.two64N) with (1 * 18446744073709551616).
+  replace (Z.of_N a + 1 * 18446744073709551616 - Z.of_N b) with (Z.of_N a - Z.of_N b + 1 * 18446744073709551616) by lia.
+  apply Z_mod_plus_full.
+Qed.
+
+Lemma sub32_eq (a b : N) : (b <= a + Ryu.two32N)%N ->
+  Z.of_N (Ryu.sub32 a b) = gu32 (Z.of_N a - Z.of_N b).
+Proof.
+  intros H. unfold Ryu.sub32. rewrite u32_eq, N2Z.inj_sub, N2Z.inj_add by exact H.
+  unfold gu32. change (Z.of_N Ryu.two32N) with (1 * 4294967296).
+  replace (Z.of_N a + 1 * 4294967296 - Z.of_N b) with (Z.of_N a - Z.of_N b + 1 * 4294967296) by lia.
+  apply Z_mod_plus_full.
+Qed.
+
+Lemma u64_lt x : (Ryu.u64 x < Ryu.two64N)%N.
+Proof. unfold Ryu.u64. apply N.mod_lt. discriminate. Qed.
+Lemma u32_lt x : (Ryu.u32 x < Ryu.two32N)%N.
+Proof. unfold Ryu.u32. apply N.mod_lt. discriminate. Qed.
+
+Definition dec_of (d : N * Z) : Z * Z := (Z.of_N (fst d), snd d).
+
+Lemma strip10_eq (fuel : nat) : forall (m : N) (e : Z),
+  gf_ryu_float64ToDecimalExactInt_loop1 fuel (Z.of_N m) e = o2o dec_of (Ryu.strip10 fuel m e).
+Proof.
+  induction fuel as [|f IH]; intros m e; [reflexivity|].
+  cbn [gf_ryu_float64ToDecimalExactInt_loop1 Ryu.strip10].
+  replace (Z.of_N m mod 10) with (Z.of_N (m mod 10)) by (rewrite N2Z.inj_mod; reflexivity).
+  replace (Z.of_N m / 10) with (Z.of_N (m / 10)) by (rewrite N2Z.inj_div; reflexivity).
+  change 0 with (Z.of_N 0). rewrite of_N_eqb.
+  destruct (m mod 10 =? 0)%N; [apply IH|reflexivity].
+Qed.
+
+Lemma strip10_no_fail (fuel : nat) : forall m e, Ryu.strip10 fuel m e <> Fail.
+Proof.
+  induction fuel as [|f IH]; intros m e; cbn [Ryu.strip10]; [discriminate|].
+  destruct (m mod 10 =? 0)%N; [apply IH|discriminate].
+Qed.
+
+(* what the generated function returns for each answer of the model: the model drops the half-built d of the
+   Go function when the answer is "not an exact integer" *)
+Definition exact_int_rel (g : option ((Z * Z) * bool)) (o : outcome (option (N * Z))) : Prop :=
+  match o with
+  | Ok (Some d) => g = Some (dec_of d, true)
+  | Ok None => exists d, g = Some (d, false)
+  | Fail => False
+  | Panic => g = None
+  end.
+
+Lemma gf_ryu_float64ToDecimalExactInt_eq (mant exp : N) :
+  exact_int_rel (gf_ryu_float64ToDecimalExactInt (Z.of_N mant) (Z.of_N exp)) (Ryu.float64ToDecimalExactInt mant exp).
+Proof.
+  unfold gf_ryu_float64ToDecimalExactInt, Ryu.float64ToDecimalExactInt.
+  change c_bias64 with 1023%N; change c_mantBits64 with 52%N.
+  cbv zeta beta iota.
+  set (e := Ryu.sub64 exp 1023).
+  assert (Ee : gu64 (Z.of_N exp - 1023) = Z.of_N e).
+  { unfold e. rewrite sub64_eq; [reflexivity|]. unfold Ryu.two64N. lia. }
+  rewrite Ee, Z.gtb_ltb. change 52 with (Z.of_N 52) at 1. rewrite of_N_ltb.
+  destruct (52 <? e)%N; [cbn; eexists; reflexivity|].
+  set (shift := Ryu.sub64 52 e).
+  assert (Es : gu64 (52 - Z.of_N e) = Z.of_N shift).
+  { unfold shift. rewrite sub64_eq; [reflexivity|]. pose proof (u64_lt (exp + Ryu.two64N - 1023)) as H.
+    unfold e, Ryu.sub64. lia. }
+  rewrite Es.
+  change (Ryu.shl64 1 52) with 4503599627370496%N.
+  set (mant' := N.lor mant 4503599627370496).
+  assert (Em : Z.lor (Z.of_N mant) 4503599627370496 = Z.of_N mant') by (unfold mant'; rewrite of_N_lor; reflexivity).
+  rewrite Em, <- shr64_eq, <- shl64_eq, of_N_eqb.
+  destruct (Ryu.shl64 (Ryu.shr64 mant' shift) shift =? mant')%N; cbn [negb]; [|cbn; eexists; reflexivity].
+  rewrite strip10_eq.
+  pose proof (strip10_no_fail 20 (Ryu.shr64 mant' shift) 0) as NF.
+  destruct (Ryu.strip10 20 (Ryu.shr64 mant' shift) 0) as [[m2 e2]| |]; cbn; try reflexivity.
+  apply NF; reflexivity.
+Qed.
